@@ -216,8 +216,8 @@ func metaScenario(sc *metaScn, idx int) {
 			sc.after(sc.do(own, "setOther", sc.actor("candidate"), "JRWPASDO"))
 			sc.after(sc.do(sc.actor("candidate"), "setSelf", nil, "JRWPASDO"))
 			// the previous owner asks for ownership back without being offered it
-			sc.after(sc.do(own, "setSelf", nil, "JRWPASDO"))
 			sc.after(sc.do(own, "setSelf", nil, "JRWPS"))
+			sc.after(sc.do(own, "setSelf", nil, "JRWPASDO"))
 		case 2:
 			// two pending transferees
 			sc.after(sc.do(sc.actor("candidate"), "sub", nil, ""))
@@ -245,6 +245,8 @@ func metaScenario(sc *metaScn, idx int) {
 	}
 	if sc.focus == "C07" {
 		sc.c07Special()
+	}
+	if sc.focus == "C07" || sc.focus == "C05" {
 		sc.c05Replay()
 	}
 	var cls []*vfClient
@@ -279,3 +281,6 @@ func (sc *metaScn) after(st *metaStep) {
 
 func TestVfC06(t *testing.T) { metaRun(t, "C06") }
 func TestVfC07(t *testing.T) { metaRun(t, "C07") }
+
+// TestVfC05Sim runs the engine with only the C05 wire/replay clauses.
+func TestVfC05Sim(t *testing.T) { metaRun(t, "C05") }
